@@ -844,6 +844,11 @@ func lemmaOne(a string, x string, c int, v string, r string, chk bool, k uint8, 
 	verifAssert(len(x)+2 <= len(a) && int(a[len(x)]) == c && int(a[len(x)+1]) == 0)
 }
 
+// lemmaAssoc: concatenation is associative
+//@ contract lemmaAssoc
+//@   ensures (x + y) + z == x + (y + z)
+func lemmaAssoc(x, y, z string) {}
+
 // lemmaCodes: the reader steps over everything specEncFrom(m, c0) writes and collects exactly the options written
 //@ contract lemmaCodes
 //@   requires 0 <= c0 && c0 <= 255 && a == x + specEncFrom(m, c0) + r
@@ -853,13 +858,19 @@ func lemmaOne(a string, x string, c int, v string, r string, chk bool, k uint8, 
 //@   ensures[has] specOptHas(a, len(x), k, hacc) == specOptHas(a, len(x)+len(specEncFrom(m, c0)), k, hacc || specInFrom(m, c0, k))
 func lemmaCodes(a string, x string, m map[uint8]string, c0 int, r string, chk bool, k uint8, acc string, hacc bool) {
 	if c0 > 254 {
+		verifAssert(specInFrom(m, c0, k) == (k == 82 && specHas(m, 82)))
 		if specHas(m, 82) {
+			verifAssert(specEncFrom(m, c0) == specEncOne(82, m[82]))
 			lemmaOne(a, x, 82, m[82], r, chk, k, acc, hacc)
+			return
 		}
+		verifAssert(len(specEncFrom(m, c0)) == 0)
 		return
 	}
 	if c0 != 82 && c0 != 0 && specHas(m, uint8(c0)) {
 		v := m[uint8(c0)]
+		lemmaAssoc(x, specEncOne(c0, v), specEncFrom(m, c0+1))
+		lemmaAssoc(x+specEncOne(c0, v), specEncFrom(m, c0+1), r)
 		lemmaOne(a, x, c0, v, specEncFrom(m, c0+1)+r, chk, k, acc, hacc)
 		if int(k) == c0 {
 			lemmaCodes(a, x+specEncOne(c0, v), m, c0+1, r, chk, k, acc+v, true)
@@ -881,4 +892,77 @@ func lemmaCodes(a string, x string, m map[uint8]string, c0 int, r string, chk bo
 //@   ensures[val] specOptVal(A, 0, k, "") == ite(specInFrom(m, 0, k), m[k], "")
 func lemmaV4Area(m map[uint8]string, pad int, k uint8) {
 	lemmaCodes(specEncFrom(m, 0)+specByte(255)+specZeros(pad), "", m, 0, specByte(255)+specZeros(pad), true, k, "", false)
+}
+
+// specNoNul: s has no NUL byte from index i on
+//@ contract specNoNul
+//@   decreases len(s) - i
+func specNoNul(s string, i int) bool {
+	if i < 0 || i >= len(s) {
+		return true
+	}
+	return s[i] != 0 && specNoNul(s, i+1)
+}
+
+// lemmaNameField: a NUL-free name that fits is read back from its zero-padded field
+//@ contract lemmaNameField
+//@   requires 0 <= i && i <= len(s) && len(s) <= max && max < size && specNoNul(s, i)
+//@   decreases len(s) - i
+//@   ensures specIndexNul(specFixed(s, max, size), i) == len(s)
+func lemmaNameField(s string, max int, size int, i int) {
+	f := specFixed(s, max, size)
+	verifAssert(len(f) == size && f == s+specZeros(size-len(s)))
+	if i < len(s) {
+		verifAssert(f[i] == s[i])
+		lemmaNameField(s, max, size, i+1)
+		return
+	}
+	verifAssert(f[i] == 0)
+}
+
+// lemmaBytes4: the four bytes of a four-byte field
+//@ contract lemmaBytes4
+//@   requires 0 <= a && a < 256 && 0 <= b && b < 256 && 0 <= c && c < 256 && 0 <= e && e < 256
+//@   requires len(s) >= p+4 && p >= 0 && s[p:p+4] == specByte(a) + specByte(b) + specByte(c) + specByte(e)
+//@   ensures int(s[p]) == a && int(s[p+1]) == b && int(s[p+2]) == c && int(s[p+3]) == e
+func lemmaBytes4(s string, p int, a, b, c, e int) {}
+
+// lemmaPrefixFixed: a value that fits is the front of its zero-padded field
+//@ contract lemmaPrefixFixed
+//@   requires len(v) <= size && 0 <= p && p+size <= len(s) && s[p:p+size] == specFixed(v, size, size)
+//@   ensures s[p:p+len(v)] == v
+func lemmaPrefixFixed(s string, p int, v string, size int) {}
+
+// lemmaRTv4: encode then decode with the real code; d: any packet in the domain of C01 (addresses absent or 4 bytes,
+// hardware address at most 16 bytes, NUL-free names that fit their fields); k: any option code other than pad/end.
+// The verifier checks it against the contracts of ToBytes and FromBytes and the pure lemmas above.
+//@ contract lemmaRTv4
+//@   requires d != nil && ipOK(d.ClientIPAddr) && ipOK(d.YourIPAddr) && ipOK(d.ServerIPAddr) && ipOK(d.GatewayIPAddr)
+//@   requires int(d.HWType) < 256 && len(d.ClientHWAddr) <= 16 && len(d.ServerHostName) <= 63 && len(d.BootFileName) <= 127 && specNoNul(d.ServerHostName, 0) && specNoNul(d.BootFileName, 0)
+//@   requires k != 0 && k != 255
+//@   let M = mapview(d.Options)
+//@   let E = specEncFrom(M, 0)
+//@   use lemmaV4Area(M, v4Pad(len(E)), k)
+//@   use lemmaNameField(d.ServerHostName, 63, 64, 0)
+//@   use lemmaNameField(d.BootFileName, 127, 128, 0)
+func lemmaRTv4(d *DHCPv4, k uint8) {
+	b := d.ToBytes()
+	sb := string(b)
+	lemmaBytes4(sb, 0, int(d.OpCode), int(d.HWType), len(d.ClientHWAddr), int(d.HopCount))
+	lemmaBytes4(sb, 8, int(d.NumSeconds)/256, int(d.NumSeconds)%256, int(d.Flags)/256, int(d.Flags)%256)
+	lemmaPrefixFixed(sb, 28, string(d.ClientHWAddr), 16)
+	q, err := FromBytes(b)
+	verifAssert(err == nil)
+	verifAssert(q.OpCode == d.OpCode && q.HWType == d.HWType && q.HopCount == d.HopCount)
+	verifAssert(q.TransactionID == d.TransactionID)
+	verifAssert(q.NumSeconds == d.NumSeconds && q.Flags == d.Flags)
+	verifAssert(len(d.ClientIPAddr) == 4 && string(q.ClientIPAddr) == string(d.ClientIPAddr) || len(d.ClientIPAddr) != 4)
+	verifAssert(len(d.GatewayIPAddr) == 4 && string(q.GatewayIPAddr) == string(d.GatewayIPAddr) || len(d.GatewayIPAddr) != 4)
+	verifAssert(string(q.ClientHWAddr) == string(d.ClientHWAddr))
+	verifAssert(q.ServerHostName == d.ServerHostName)
+	verifAssert(q.BootFileName == d.BootFileName)
+	_, hq := q.Options[k]
+	_, hd := d.Options[k]
+	verifAssert(hq == hd)
+	verifAssert(string(q.Options[k]) == string(d.Options[k]))
 }
